@@ -182,4 +182,57 @@ theorem density_formula (kb : ℝ) (P T : List ℝ) (l : ℕ) :
 example : (density (2 : ℝ) [10, 20] [5, 4])[1]? = some (20 / (2 * 4)) := by
   rw [density_formula]; rfl
 
+/-- **The stored-profile dictionary** (`generate_profiles()`): its keys are exactly the documented ones, in insertion
+    order (the condensate table only when the chemistry has condensates); EVERY entry has one value per layer (1-D entries
+    `n` values, every row of a gas-mix table `n` values — the tables are the rows `mixProfile[mask]`, C10); and the
+    structure entries are the per-layer views the forward model stores, the density entry `P/(kT)`. -/
+theorem profile_dict (kb G M R : ℝ) {T pl mu P : List ℝ} {n : ℕ} (hT : T.length = n) (hmu : mu.length = n)
+    (hpl : pl.length = n + 1) (hP : P.length = n) (act inact cond : Option (List (List ℝ)))
+    (hact : ∀ rows, act = some rows → ∀ r ∈ rows, r.length = n)
+    (hinact : ∀ rows, inact = some rows → ∀ r ∈ rows, r.length = n)
+    (hcond : ∀ rows, cond = some rows → ∀ r ∈ rows, r.length = n) :
+    let v := views (scaleProps kb G M R T pl mu)
+    let d := profileDict v T P (density kb P T) mu act inact cond
+    d.map (·.1) = ["temp_profile", "active_mix_profile", "inactive_mix_profile", "density_profile",
+        "scaleheight_profile", "altitude_profile", "gravity_profile", "pressure_profile"]
+        ++ (if cond.isSome then ["condensate_profile"] else []) ++ ["mu_profile"] ∧
+    (∀ e ∈ d, e.2.PerLayer n) ∧
+    d.lookup "altitude_profile" = some (.arr v.altitudeProfile) ∧
+    d.lookup "scaleheight_profile" = some (.arr v.scaleheightProfile) ∧
+    d.lookup "gravity_profile" = some (.arr v.gravityProfile) ∧
+    d.lookup "density_profile" = some (.arr (density kb P T)) ∧
+    d.lookup "pressure_profile" = some (.arr P) ∧ d.lookup "temp_profile" = some (.arr T) ∧
+    d.lookup "mu_profile" = some (.arr mu) := by
+  intro v d
+  obtain ⟨_, _, _, _, halt, hH, hg, _, _, hdens⟩ := lengths kb G M R hT hmu hpl hP
+  have ha : (ProfVal.ofTable act).PerLayer n := by
+    cases act with
+    | none => trivial
+    | some rows => exact hact rows rfl
+  have hi : (ProfVal.ofTable inact).PerLayer n := by
+    cases inact with
+    | none => trivial
+    | some rows => exact hinact rows rfl
+  refine ⟨?_, ?_, ?_⟩
+  · cases cond <;> rfl
+  · intro e he
+    cases cond with
+    | none =>
+      simp only [d, profileDict, List.append_nil, List.cons_append, List.nil_append, List.mem_cons,
+        List.not_mem_nil, or_false] at he
+      rcases he with rfl | rfl | rfl | rfl | rfl | rfl | rfl | rfl | rfl <;>
+        first | exact hT | exact ha | exact hi | exact hdens | exact hH | exact halt | exact hg | exact hP | exact hmu
+    | some c =>
+      simp only [d, profileDict, List.cons_append, List.nil_append, List.mem_cons,
+        List.not_mem_nil, or_false] at he
+      rcases he with rfl | rfl | rfl | rfl | rfl | rfl | rfl | rfl | rfl | rfl <;>
+        (first | exact hT | exact ha | exact hi | exact hdens | exact hH | exact halt | exact hg | exact hP
+               | exact hcond c rfl | exact hmu)
+  · cases cond <;> simp [d, profileDict, List.lookup]
+
+example : let v := views (scaleProps (1 : ℝ) 1 1 1 [1000, 900] [100000, 1000, 10] [2, 2])
+    ((profileDict v [1000, 900] [5000, 50] (density 1 [5000, 50] [1000, 900]) [2, 2] (some [[1, 1]]) none none).map
+      (·.1)).length = 9 := by
+  intro v; rfl
+
 end Taurex.C11
